@@ -536,7 +536,7 @@ class Unit:
         # external (hashbrown) iterator becomes an index loop over a ghost enumeration of the table
         self.for_rewrites = []
         self.label_props = {}  # label prefix -> [property ids] (longest prefix wins)
-        self.rlimit = 30
+        self.rlimit = 60  # allocate_batch needs ~28 (measured); 2x headroom against solver jitter
 
     def text(self, s):
         self.parts.append(("text", s))
